@@ -3,7 +3,7 @@
 #   tools/confirm_seeded.sh <PROP> <k>
 # (worktree /tmp/mut/<PROP>, files OUT/patch<k>.diff, OUT/demo<k>.sh). Prints a JSON line.
 set -u
-ID="$1"; K="$2"; W="/tmp/mut/$ID"; O="$W/OUT"
+ID="$1"; K="$2"; W="${MUTROOT:-/tmp/mut3}/$ID"; O="$W/OUT"
 export CARGO_NET_OFFLINE=true RUST_BACKTRACE=0 CARGO_TARGET_DIR="$W/target"
 cd "$W" || exit 2
 git checkout -q -- . ; git clean -fdq -e OUT -e target
